@@ -147,6 +147,23 @@ def run_stream(spec):
             for k in keys:
                 twins[k].reset()
             ev.append(event("reset", ens, keys, twins, spec["election"]["kind"]))
+        if rng.random() < 0.03:
+            # an update no member accepts (two observations at once): the ensemble passes the first member's ValueError on and counts nothing
+            bad = np.array([[1.0, 2.0, 3.0], [4.0, 5.0, 6.0]])
+            badX = pd.DataFrame(bad, columns=["a", "b", "c"]) if spec["frame"] else bad
+            np.random.seed(1000 + t)
+            try:
+                ens.update(badX, [1, 0], [1, 1])
+                raised = False
+            except ValueError:
+                raised = True
+            np.random.seed(1000 + t)
+            k0 = keys[0]
+            try:
+                twins[k0].update(X=sels[k0](badX) if k0 in sels else badX, y_true=[1, 0], y_pred=[1, 1])
+            except ValueError:
+                pass
+            ev.append(event("refused" if raised else "refused-but-accepted", ens, keys, twins, spec["election"]["kind"]))
         if rng.random() < 0.04:
             level, sd, perr = rng.uniform(-5, 8), rng.uniform(0.3, 2), rng.uniform(0.05, 0.8)
         row = np.array([[round(rng.gauss(level, sd), 3) for _ in range(3)]])
